@@ -45,7 +45,8 @@ VARIANTS = ["none", "none", "reorder-file", "key-replaced", "key-added", "key-re
             "msg-extended", "foreign-header", "missing-target", "ui-key-mismatch", "wrong-root",
             "root-not-self-signed", "hash-flipped", "foreign-platform-id", "bundled-root",
             "one-target-signature-broken", "target-without-app-hash",
-            "attestation-message-reshaped", "unusable-input", "unusable-input", "unusable-input"]
+            "attestation-message-reshaped", "unusable-input", "unusable-input", "unusable-input",
+            "ui-msg-extended"]
 # one of the three inputs cannot be used at all: nothing can be vouched for
 UNUSABLE = ["pubkeys-not-object", "pubkeys-bad-key", "pubkeys-key-not-on-curve",
             "pubkeys-not-json", "pubkeys-empty", "pubkeys-missing", "cert-not-json",
@@ -63,7 +64,8 @@ def cases(draw, tier):
     others = draw(st.lists(st.sampled_from(ALL_PATHS[1:] + EXTRA_PATHS), max_size=7,
                            unique=True))
     paths = [attest.UI_PATH] + others
-    keys = [[p, draw(st.integers(0, 2 ** 64))] for p in paths]
+    keys = [[p, draw(st.one_of(st.integers(0, 2 ** 64), st.integers(0, 2 ** 64),
+                               st.sampled_from(["zero-x", "zero-y"])))] for p in paths]
     c = {"plat": plat, "keys": keys,
          "compressed_in_file": [draw(st.booleans()) for _ in keys],
          "file_order": draw(st.permutations(list(range(len(keys))))),
@@ -106,6 +108,9 @@ def tmp(name):
 def run_case(c):
     plat, var = c["plat"], c["variant"]
     labels = ["plat:" + plat, "variant:" + var]
+    # keys with a coordinate that begins with a zero byte, where the case asks for one
+    c = dict(c, keys=[[p_, attest.zero_x_index(p_, k_[-1]) if isinstance(k_, str) else k_]
+                      for p_, k_ in c["keys"]])
     w = attest.wallet(c["keys"])
     pubs = {p: pub_uncompressed(sk) for p, sk in w.items()}       # the operator's keys
     file_keys = dict(pubs)                                        # what the keys file will hold
@@ -189,6 +194,16 @@ def run_case(c):
         genuine = False
     ui_msg = attest.ui_message(c["ui_version"], c["ui_ud"], ui_key, c["signer_hash"],
                                c["iteration"])
+    if var == "ui-msg-extended":
+        # bytes after the last documented field of the UI message: whether that is an error
+        # the statement does not say (it fixes the length of the powHSM message only); what is
+        # printed, if anything, comes from the documented offsets
+        if plat == "ledger":
+            ui_msg += c["vbytes"]
+            if genuine:
+                genuine = None
+        else:
+            labels[-1] += "-na"
     if var == "foreign-header":
         k = c["vhdr"]
         if plat == "ledger" and k == 0:
